@@ -463,9 +463,17 @@ structure FileSt where
   idealExists : Bool := true
   away : Option (List Nat) := none           -- content of the file that was renamed away (it can be renamed back)
 
+/-- downstream of the scripted handler: the value last applied (`some none` = the nil property) and the number of updater calls -/
+structure CustomM where
+  applied : Option (Option Nat) := none
+  calls : Nat := 0
+
 structure St where
   mods : List (String × ModSt) := []
   file : Option FileSt := none
+  custom : Handler Nat × CustomM := ({}, {})
+  -- spec side of the scripted handler: what the handler remembers, what is applied, how often the updater ran
+  customRef : Option (Option Nat) × CustomM := (some none, {})
 
 def getMod (s : St) (n : String) : ModSt := ((s.mods.find? (·.1 = n)).map (·.2)).getD {}
 def setMod (s : St) (n : String) (m : ModSt) : St :=
@@ -594,8 +602,61 @@ def fileOp (spec : Bool) (s : St) (arg : Option (List Nat)) (evs : List Nat → 
     ({ s' with file := some { f' with src := src' } }, some (claim spec ms' "" ""))
   | _, _ => (s, some "bad-op")
 
+def parseConv (c : String) : Option (Conv Nat) :=
+  if c = "nil" then some (.ok none)
+  else if c = "err" then some .err
+  else if c = "panic:err" || c = "panic:str" || c = "panic:deref" then some .panic
+  else if c.startsWith "ok:" then (c.drop 3).toString.toNat?.map fun k => .ok (some k)
+  else none
+
+/-- the scripted updater: `ok` applies the value, `err` and the panics leave the downstream alone; every call is counted -/
+def customUpd (u : String) (v : Option Nat) (m : CustomM) : Upd CustomM :=
+  let m' := { m with calls := m.calls + 1 }
+  if u = "ok" then .ok { m' with applied := some v } else if u = "err" then .err m' else .panic m'
+
+def showCustom (r : String) (m : CustomM) : String :=
+  let a := match m.applied with
+    | none => "none"
+    | some none => "nil"
+    | some (some k) => toString k
+  s!"{r} applied={a} upd={m.calls}"
+
+/-- `ds.custom`: the real `Handle` with a scripted converter and updater against the model's `handle`
+    (`spec`: the expectation written out independently: a panic never escapes, it is turned into a `nil` return) -/
+def customOp (spec : Bool) (s : St) (c u : String) : St × Option String :=
+  match parseConv c with
+  | none => (s, some "bad-op")
+  | some conv =>
+    if !(["ok", "err", "panic:err", "panic:str", "panic:deref"].contains u) then (s, some "bad-op") else
+    if !spec then
+      let (h', m', o) := handle (fun (_ : Unit) => conv) (fun a b => a == b) (customUpd u) s.custom.1 s.custom.2 ()
+      let r := match o with
+        | .ret .nil => "ok"
+        | .ret .err => "err"
+        | .panicked => "escaped"
+      ({ s with custom := (h', m') }, some (showCustom r m'))
+    else
+      let (last, m) := s.customRef
+      let (last', m', r) : Option (Option Nat) × CustomM × String :=
+        match conv with
+        | .err => (last, m, "err")
+        | .panic => (last, m, "ok")
+        | .ok v =>
+          if last = some v then (last, m, "ok")                 -- the same value as remembered: nothing happens
+          else
+            let m1 := { m with calls := m.calls + 1 }
+            if u = "ok" then (some v, { m1 with applied := some v }, "ok")
+            else if u = "err" then (some v, m1, "err")
+            else (some v, m1, "ok")
+      ({ s with customRef := (last', m') }, some (showCustom r m'))
+
 def step (spec : Bool) (s : St) (ts : List String) (_line : String) : St × Option String :=
   match ts with
+  | ["ds.custom", c, u] => customOp spec s c u
+  | ["file.reinit"] =>
+    (match s.file with
+     | some f => (s, some (claim spec (getMod s f.md.name) "ok " "ok "))     -- isInitialized is set: nothing happens, nil returned
+     | none => (s, some "bad-op"))
   | ["ds.handle", m, p] => handleOp spec s m p false
   | ["ds.deliver", m, p] => handleOp spec s m p true
   | ["rules", m] =>
@@ -607,6 +668,7 @@ def step (spec : Bool) (s : St) (ts : List String) (_line : String) : St × Opti
      | some t => (s, some (showTags t))
      | none => (s, some "bad-op"))
   | ["file.new", m, p] =>
+    if s.file.isSome || (s.mods.any (·.1 = m)) then (s, some "bad-op") else   -- one file source per case, on a module nothing was delivered to
     (match findMod m with
      | none => (s, some "bad-op")
      | some md =>
